@@ -1041,6 +1041,16 @@ func (c02) Generate(rng *rand.Rand, tier string, st *Stats) []Case {
 		{c02E(cm, c02E(c02nm{c02NSClient, "error"}, c02E(c02nm{c02NSClient, "error"}))).with("id", "m5").with("type", "error"), after("client")},
 		{c02E(cm, c02E(c02nm{c02NSClient, "body"}, c02T("one")), c02E(c02nm{c02NSClient, "body"}, c02T("t"), c02E(ux, c02T("no")), c02T("wo"))).with("id", "m6"), after("client")},
 	}
+	// stream features that advertise things under a KNOWN local name in a namespace the library does not know (another
+	// version of stream management, a vendor's bind): still one features packet, the next element untouched
+	{
+		feat := c02nm{c02NSStream, "features"}
+		for _, kid := range []c02nm{{"urn:xmpp:sm:2", "sm"}, {"urn:vendor:bind", "bind"}, {"urn:vendor:sasl", "mechanisms"}, {"urn:vendor:tls", "starttls"},
+			{"urn:vendor:caps", "c"}, {"urn:vendor:session", "session"}, {"urn:vendor", "push"}, {"urn:vendor", "rebind"}} {
+			corpus = append(corpus, []*c02tree{c02E(feat, c02E(kid), c02E(c02nm{c02NSSM, "sm"})), after("client")})
+			corpus = append(corpus, []*c02tree{c02E(feat, c02E(c02nm{"urn:ietf:params:xml:ns:xmpp-bind", "bind"}), c02E(kid, c02E(c02nm{kid.Space, "required"}))), after("client")})
+		}
+	}
 	for _, items := range corpus {
 		addCase("corpus", "client", items, "whole", "byte1", "rand:7", "ws")
 	}
